@@ -52,6 +52,8 @@ struct World {
     struct PinRec { int shape, cls, xq, yq, prop, inside, dirs, excl; ShapeConnectionPin *pin; };
     std::vector<PinRec> pins;
     bool txn = true;
+    bool regPending = false, lastHadReg = false;   // a hyperedge registration waits for the next transaction / the last transaction had one
+    std::set<int> goneJ, goneC;                    // the client's junctions / connectors that the library has reported as deleted (hyperedge lists)
 };
 
 static void snapshot(vt::J &j, World &w)
@@ -109,6 +111,46 @@ static ConnEnd mkEnd(World &w, int k, int a, int b)
     return ConnEnd(Point(a, b));
 }
 
+// junctions the last rerouting/improvement reported as deleted: they stay in the router until the next transaction removes them,
+// and the client is told through the deleted-object lists not to use them any more (so the harness does not move or register them)
+static std::set<JunctionRef *> goneJunctions(World &w)
+{
+    std::set<JunctionRef *> gone;
+    HyperedgeNewAndDeletedObjectLists L = w.router->newAndDeletedObjectListsFromHyperedgeImprovement();
+    gone.insert(L.deletedJunctionList.begin(), L.deletedJunctionList.end());
+    if (w.lastHadReg) {      // (the rerouter's result vectors have an entry 0 only after a transaction that rerouted a registered hyperedge)
+        HyperedgeNewAndDeletedObjectLists R = w.router->hyperedgeRerouter()->newAndDeletedObjectLists(0);
+        gone.insert(R.deletedJunctionList.begin(), R.deletedJunctionList.end());
+    }
+    return gone;
+}
+
+// after a processing point: which of the client's own objects has the library reported as deleted?  (addresses are compared, nothing
+// is dereferenced.)  A client must not use such an object again, so a pre-generated history that goes on to use one is cut there.
+static void noteGone(World &w)
+{
+    HyperedgeNewAndDeletedObjectLists L = w.router->newAndDeletedObjectListsFromHyperedgeImprovement();
+    std::set<const void *> dj(L.deletedJunctionList.begin(), L.deletedJunctionList.end()), dc(L.deletedConnectorList.begin(), L.deletedConnectorList.end());
+    if (w.lastHadReg) {
+        HyperedgeNewAndDeletedObjectLists R = w.router->hyperedgeRerouter()->newAndDeletedObjectLists(0);
+        dj.insert(R.deletedJunctionList.begin(), R.deletedJunctionList.end()); dc.insert(R.deletedConnectorList.begin(), R.deletedConnectorList.end());
+    }
+    for (auto &kv : w.juncs) if (dj.count(kv.second)) w.goneJ.insert(kv.first);
+    for (auto &kv : w.conns) if (dc.count(kv.second)) w.goneC.insert(kv.first);
+}
+static bool usesGone(const World &w, const std::vector<int> &o)
+{
+    auto J = [&](int id) { return w.goneJ.count(id) > 0; };
+    auto C = [&](int id) { return w.goneC.count(id) > 0; };
+    switch (o[0]) {
+    case 4: return (o[2] == 2 && J(o[3])) || (o[5] == 2 && J(o[6]));
+    case 5: case 9: return C(o[1]);
+    case 10: case 11: case 12: return J(o[1]);
+    case 15: return C(o[1]) || (o[3] == 2 && J(o[4]));
+    }
+    return false;
+}
+
 static void emitOp(const std::vector<int> &o, World *w, bool processed, const char *err)
 {
     vt::J j; j.obj().k("e").s("Op").k("op").ints(o).k("processed").b(processed);
@@ -132,10 +174,11 @@ static void runScenario(int mode, int opts, const std::vector<std::vector<int> >
     w.router->setRoutingParameter(shapeBufferDistance, (opts & 1) ? 2 : 0);
     w.router->setRoutingOption(improveHyperedgeRoutesMovingJunctions, (opts & 2) != 0);
     w.router->setRoutingOption(improveHyperedgeRoutesMovingAddingAndDeletingJunctions, (opts & 4) != 0);
-    bool alive = true;
+    bool alive = true, truncated = false;
     for (size_t i = 0; i < ops.size() && alive; i++) {
         const std::vector<int> &o = ops[i];
         bool processed = false;
+        if (usesGone(w, o)) { truncated = true; break; }      // (hyperedge improvement/rerouting has replaced that object: the history ends here)
         try {
             switch (o[0]) {
             case 1: { Rectangle rc(Point(o[2], o[3]), Point(o[4], o[5])); w.shapes[o[1]] = new ShapeRef(w.router, rc, o[1]); processed = !w.txn; break; }
@@ -146,8 +189,8 @@ static void runScenario(int mode, int opts, const std::vector<std::vector<int> >
                 if (o[8]) p->setExclusive(true); else p->setExclusive(false);
                 w.pins.push_back({o[1], o[2], o[3], o[4], o[5], o[6], o[7], o[8], p});
                 break; }
-            case 3: w.juncs[o[1]] = new JunctionRef(w.router, Point(o[2], o[3]), o[1]); processed = !w.txn; break;
-            case 4: w.conns[o[1]] = new ConnRef(w.router, mkEnd(w, o[2], o[3], o[4]), mkEnd(w, o[5], o[6], o[7]), o[1]); processed = !w.txn; break;
+            case 3: w.juncs[o[1]] = new JunctionRef(w.router, Point(o[2], o[3]), o[1]); w.goneJ.erase(o[1]); processed = !w.txn; break;
+            case 4: w.conns[o[1]] = new ConnRef(w.router, mkEnd(w, o[2], o[3], o[4]), mkEnd(w, o[5], o[6], o[7]), o[1]); w.goneC.erase(o[1]); processed = !w.txn; break;
             case 5: { std::vector<Checkpoint> cps; for (int k = 0; k < o[2]; k++) cps.push_back(Checkpoint(Point(o[3 + 2 * k], o[4 + 2 * k])));
                       w.conns.at(o[1])->setRoutingCheckpoints(cps); break; }
             case 6: w.router->moveShape(w.shapes.at(o[1]), o[2], o[3]); processed = !w.txn; break;
@@ -156,7 +199,7 @@ static void runScenario(int mode, int opts, const std::vector<std::vector<int> >
             case 9: w.router->deleteConnector(w.conns.at(o[1])); w.conns.erase(o[1]); processed = !w.txn; break;
             case 10: w.router->deleteJunction(w.juncs.at(o[1])); w.juncs.erase(o[1]); processed = !w.txn; break;
             case 11: w.router->moveJunction(w.juncs.at(o[1]), o[2], o[3]); processed = !w.txn; break;
-            case 12: w.router->hyperedgeRerouter()->registerHyperedgeForRerouting(w.juncs.at(o[1])); break;
+            case 12: w.router->hyperedgeRerouter()->registerHyperedgeForRerouting(w.juncs.at(o[1])); w.regPending = true; break;
             case 18:        // 18 opts: the two hyperedge improvement options are set anew (bits 2 and 4 as in the scenario's opts)
                 w.router->setRoutingOption(improveHyperedgeRoutesMovingJunctions, (o[1] & 2) != 0);
                 w.router->setRoutingOption(improveHyperedgeRoutesMovingAddingAndDeletingJunctions, (o[1] & 4) != 0);
@@ -165,28 +208,25 @@ static void runScenario(int mode, int opts, const std::vector<std::vector<int> >
                 std::vector<JunctionRef *> js;
                 // (not those the last rerouting/improvement reported as deleted: they stay in the router until the next transaction
                 //  removes them, and the client is told through the deleted-object lists not to use them any more)
-                std::set<JunctionRef *> gone;
-                { HyperedgeNewAndDeletedObjectLists L = w.router->newAndDeletedObjectListsFromHyperedgeImprovement();
-                  gone.insert(L.deletedJunctionList.begin(), L.deletedJunctionList.end());
-                  HyperedgeNewAndDeletedObjectLists R = w.router->hyperedgeRerouter()->newAndDeletedObjectLists(0);
-                  gone.insert(R.deletedJunctionList.begin(), R.deletedJunctionList.end()); }
+                std::set<JunctionRef *> gone = goneJunctions(w);
                 for (Obstacle *ob : w.router->m_obstacles) if (JunctionRef *q = dynamic_cast<JunctionRef *>(ob)) if (!gone.count(q)) js.push_back(q);
                 for (JunctionRef *q : js) w.router->moveJunction(q, o[1], o[2]);
                 processed = !w.txn && !js.empty(); break; }
             case 16: { ConnEndList terms; for (int q = 0; q < o[1] && q < 5; q++) terms.push_back(ConnEnd(w.shapes.at(o[2 + 2 * q]), (unsigned)o[3 + 2 * q]));
-                       w.router->hyperedgeRerouter()->registerHyperedgeForRerouting(terms); break; }
+                       w.router->hyperedgeRerouter()->registerHyperedgeForRerouting(terms); w.regPending = true; break; }
             case 13: w.router->processTransaction(); processed = true; break;
             case 14: w.txn = o[1] != 0; w.router->setTransactionUse(w.txn); break;
             case 15: if (o[2] == 0) w.conns.at(o[1])->setSourceEndpoint(mkEnd(w, o[3], o[4], o[5])); else w.conns.at(o[1])->setDestEndpoint(mkEnd(w, o[3], o[4], o[5]));
                      processed = !w.txn; break;
             }
+            if (processed) { w.lastHadReg = w.regPending; w.regPending = false; noteGone(w); }
             emitOp(o, &w, processed, nullptr);
         } catch (vpsc::CriticalFailure &f) { emitOp(o, &w, false, ("assertion: " + f.what()).c_str()); alive = false; }
         catch (std::out_of_range &) { emitOp(o, &w, false, "harness: unknown object"); alive = false; }
         catch (std::exception &e) { emitOp(o, &w, false, (std::string("exception: ") + e.what()).c_str()); alive = false; }
     }
     if (alive) {
-        try { delete w.router; vt::J j; j.obj().k("e").s("End").k("ok").b(true).end(); g_out->line(j); }
+        try { delete w.router; vt::J j; j.obj().k("e").s("End").k("ok").b(true); if (truncated) j.k("truncated").b(true); j.end(); g_out->line(j); }
         catch (vpsc::CriticalFailure &f) { vt::J j; j.obj().k("e").s("End").k("ok").b(false).k("error").s("assertion in ~Router: " + f.what()).end(); g_out->line(j); }
     } else {
         vt::J j; j.obj().k("e").s("End").k("ok").b(false).end(); g_out->line(j);     // router leaked on purpose: its state is undefined
